@@ -328,6 +328,9 @@ enum SOp {
     Acquire,
     Probe,
     Close,
+    /// between the connections: a QoS>0 PUBLISH that names its topic only by an alias. No binding of the last
+    /// connection may be usable any more, so a reused object refuses it exactly as a fresh one does
+    BetweenAliasOnlyPublish { qos: u8, alias: u16 },
 }
 
 fn gen_script(r: &mut Rng, ver: Ver, as_client: bool, new_session_by_clean: bool, resume: bool) -> Vec<SOp> {
@@ -361,7 +364,14 @@ fn gen_script(r: &mut Rng, ver: Ver, as_client: bool, new_session_by_clean: bool
     // session present only when resuming; "session not present" starts a new session
     let connack = Pkt::Connack { ver, sp: resume, code: 0, props: props_a };
     let _ = as_client;
-    let mut v = vec![SOp::Handshake { connect, connack }, SOp::Probe];
+    let mut v = Vec::new();
+    if ver == Ver::V5 && r.below(3) == 0 {
+        for _ in 0..1 + r.usize(2) {
+            v.push(SOp::BetweenAliasOnlyPublish { qos: 1 + r.below(2) as u8, alias: r.range(1, 3) as u16 });
+        }
+    }
+    v.push(SOp::Handshake { connect, connack });
+    v.push(SOp::Probe);
     let topics = ["a", "b", "c/d"];
     for _ in 0..5 + r.usize(16) {
         v.push(match r.below(12) {
@@ -477,6 +487,27 @@ fn run_script(c: &mut Box<dyn Conn>, script: &[SOp], ver: Ver, idw: usize, as_cl
                 format!("probe => stored {:?} handled {:?} vacancy {:?}", st, c.handled().map_err(|p| p.message)?, c.vacancy().map_err(|p| p.message)?)
             }
             SOp::Close => format!("notify_closed => {}", evs_short(&normalise(&c.notify_closed().map_err(|p| p.message)?))),
+            SOp::BetweenAliasOnlyPublish { qos, alias } => {
+                // (which id acquire hands out before the new session starts depends on the old session: not compared)
+                match c.acquire().map_err(|p| p.message)?.ok() {
+                    None => "between connections: no id".to_string(),
+                    Some(id) => {
+                        let p = Pkt::Publish { ver, dup: false, qos: *qos, retain: false, topic: vec![], id: Some(id), props: vec![p_u16(P_TA, *alias)], payload: b"o".to_vec() };
+                        let evs = send(c, &p)?;
+                        let shown: Vec<String> = evs
+                            .iter()
+                            .map(|e| match e {
+                                Ev::Released(i) if *i == id => "Released(own id)".to_string(),
+                                other => other.short(),
+                            })
+                            .collect();
+                        if !evs.iter().any(|e| matches!(e, Ev::Released(i) if *i == id)) {
+                            let _ = c.release(id);
+                        }
+                        format!("between connections: send(alias-only PUBLISH q{} alias {}) => {:?}", qos, alias, shown)
+                    }
+                }
+            }
         };
         out.push(line);
     }
